@@ -15,6 +15,8 @@
 (* kind "P"  : (filter-condition shape(s), table layout): every operator   *)
 (*             spelling x every value shape, malformed shapes, on the      *)
 (*             empty table, an empty file, and files with rows.            *)
+(* kind "G"  : group states (one per layout); every case is the successor  *)
+(*             of its group so that TLC's workers share the work.          *)
 (* kind "T"  : one state carrying the value-level theorem                  *)
 (*             EngineMatchesReference over the whole value/expression      *)
 (*             domain.                                                     *)
@@ -107,17 +109,27 @@ PCondB == { Shape("bare", "", TRUE, "none", <<>>), Shape("pair", "gte", TRUE, "s
             Shape("bare", "", TRUE, "homog", <<>>), Shape("pair", "==", TRUE, "scalar", <<0>>) }
 
 (* ------------------------------- cases --------------------------------- *)
+\* TLC evaluates invariants of initial states in one thread; so the initial states are the GROUPS
+\* (kind "G": one per table layout) and every case is a successor of its group: the workers
+\* then share the groups.
 Case(kind, grp, files, exprs, proj, cond, condB) ==
   [kind |-> kind, grp |-> grp, files |-> files, exprs |-> exprs, proj |-> proj, cond |-> cond, condB |-> condB]
-SCases == {Case("S", "single", l, e, p, NoCond, NoCond) : l \in SingleLayouts, e \in Filters, p \in Projs}
-     \cup {Case("S", "multi", l, e, p, NoCond, NoCond) : l \in MultiLayouts, e \in MultiFilters, p \in Projs}
-PCases == {Case("P", "one", l, <<>>, p, s, NoCond) : l \in PLayouts, s \in Shapes, p \in {ProjAll, <<"rid">>}}
-     \cup {Case("P", "two", l, <<>>, ProjAll, s, t) : l \in {<<PFile1>>, <<PFile1, PFile1>>}, s \in PCondA, t \in PCondB}
-TCase == Case("T", "thm", <<>>, <<>>, ProjAll, NoCond, NoCond)
-Cases == SCases \cup PCases \cup {TCase}
+Group(grp, files) == Case("G", grp, files, <<>>, ProjAll, NoCond, NoCond)
+Groups == {Group("single", l) : l \in SingleLayouts} \cup {Group("multi", l) : l \in MultiLayouts}
+     \cup {Group("one", l) : l \in PLayouts} \cup {Group("two", l) : l \in {<<PFile1>>, <<PFile1, PFile1>>}}
+     \cup {Group("thm", <<>>)}
+CasesOf(g) ==
+  CASE g.grp = "single" -> {Case("S", "single", g.files, e, p, NoCond, NoCond) : e \in Filters, p \in Projs}
+    [] g.grp = "multi"  -> {Case("S", "multi", g.files, e, p, NoCond, NoCond) : e \in MultiFilters, p \in Projs}
+    [] g.grp = "one"    -> {Case("P", "one", g.files, <<>>, p, s, NoCond) : s \in Shapes, p \in {ProjAll, <<"rid">>}}
+    [] g.grp = "two"    -> {Case("P", "two", g.files, <<>>, ProjAll, s, t) : s \in PCondA, t \in PCondB}
+    [] g.grp = "thm"    -> {Case("T", "thm", <<>>, <<>>, ProjAll, NoCond, NoCond)}
+SCases == UNION {CasesOf(g) : g \in {x \in Groups : x.grp \in {"single", "multi"}}}
+PCases == UNION {CasesOf(g) : g \in {x \in Groups : x.grp \in {"one", "two"}}}
 
-Init == c \in Cases
-Next == UNCHANGED c
+Init == c \in Groups
+Next == \/ c.kind = "G" /\ c' \in CasesOf(c)
+        \/ c.kind # "G" /\ UNCHANGED c
 Spec == Init /\ [][Next]_c
 
 (* ------------------ what a P case means (reference / code) ------------- *)
@@ -138,7 +150,10 @@ FltP(x) == [stage |-> StageP(x), exprs |-> ExprsOfConds(x, Understood)]
 RefMalformedOf(x) == IF x.kind = "P" THEN RefMalformedP(x) ELSE FALSE
 RefExprsOf(x)     == IF x.kind = "P" THEN RefExprsP(x) ELSE x.exprs
 FltOf(x)          == IF x.kind = "P" THEN FltP(x) ELSE [stage |-> "ok", exprs |-> x.exprs]
-FloatChoices(x)   == IF HasNaN(x.files) THEN {TRUE} ELSE BOOLEAN
+\* whether b is a float column only matters to the != arm of file pruning
+FloatChoices(x)   == IF HasNaN(x.files) THEN {TRUE}
+                     ELSE IF \E i \in 1..Len(RefExprsOf(x)) : RefExprsOf(x)[i].op = "!=" /\ RefExprsOf(x)[i].col = "b" THEN BOOLEAN
+                     ELSE {TRUE}
 FloatColsOf(fl)   == IF fl THEN {"b"} ELSE {}
 
 (* ----------------------------- invariants ------------------------------ *)
@@ -183,7 +198,7 @@ OutP(x) == [kind |-> "P", grp |-> x.grp, files |-> x.files, cond |-> x.cond, con
             stage |-> StageP(x), sel |-> Sel(x.files, RefExprsP(x)),
             mScan |-> OutcomeOut(ScanTable(x.files, FltP(x), ProjAll, TRUE, FlNaN(x))),
             mBatches |-> OutcomeOut(ScanBatches(x.files, FltP(x), ProjAll, 2, FlNaN(x)))]
-Meta == [kind |-> "meta", projs |-> SetToSeq(Projs), nS |-> Cardinality(SCases), nP |-> Cardinality(PCases),
+Meta == [kind |-> "meta", projs |-> SetToSeq(Projs), nS |-> Cardinality(SCases), nP |-> Cardinality(PCases), nG |-> Cardinality(Groups),
          statsPushdown |-> StatsPushdown, validateFirst |-> ValidateFirst]
 Export ==
   ndJsonSerialize(IOEnv.VERIF_OUT,
